@@ -292,6 +292,35 @@ def worker(scratch):
                 fn(ctypes.addressof(sim), dt)
                 res = " ".join(d2h(c) for i in range(n) for c in getp(sim.particles[i + 1]))
                 sim = None
+            elif op == "wjump":
+                coord, tpt, nactive, dt, m0 = t[2], int(t[3]), int(t[4]), h2d(t[5]), h2d(t[6])
+                vals = [h2d(s) for s in t[7:]]
+                slot0 = vals[:6]
+                vals = vals[6:]
+                n = len(vals) // 7
+                sim = rebound.Simulation()
+                sim.integrator = "whfast"
+                sim.ri_whfast.coordinates = COORD_PY[coord]
+                sim.add(m=1.0)
+                for i in range(n):
+                    sim.add(m=1e-3, a=1.0 + i, f=0.3 * i)
+                sim.dt = 1e-3
+                sim.step()                       # allocates ri_whfast.p_jh
+                sim.N_active = nactive
+                sim.testparticle_type = tpt
+                sim.particles[0].m = m0
+                pj = sim.ri_whfast._p_jh
+                setp(pj[0], slot0)
+                for i in range(n):
+                    sim.particles[i + 1].m = vals[7 * i]
+                    setp(pj[i + 1], vals[7 * i + 1:7 * i + 7])
+                for nm in ("reb_whfast_jump_step", "reb_whfast_com_step"):
+                    fn = getattr(clib, nm)
+                    fn.argtypes = [ctypes.c_void_p, ctypes.c_double]
+                    fn.restype = None
+                    fn(ctypes.addressof(sim), dt)
+                res = " ".join(d2h(c) for i in range(n + 1) for c in getp(pj[i]))
+                sim = None
             elif op == "jump":
                 which, tpt, nactive, dt, m0 = t[2], int(t[3]), int(t[4]), h2d(t[5]), h2d(t[6])
                 vals = [h2d(s) for s in t[7:]]
@@ -1338,6 +1367,50 @@ def run_(c):
     c.cov["hybrid_jump_step_calls_compared_bitwise"] = {"total": nj, "disagreements": jdis}
     if jdis:
         c.corr_break("%d of %d reb_integrator_mercurius_jump_step / reb_integrator_trace_jump_step calls differ from the model (particle range of the momentum sum: N_active for testparticle_type 0, N for type 1)" % (jdis, nj), jfirst)
+
+    # ---------------------------------------------------------------- WHFast's own jump step and com step (exported)
+    nw = 400 if c.thorough else 80
+    wl, wm, wmeta2 = [], [], []
+    for i in range(nw):
+        rng = c.rng.fork()
+        coord = COORDS[i % 4]
+        n = rng.randint(1, 5)
+        tpt = rng.randint(0, 1)
+        nactive = rng.choice([-1, 1, 1] + list(range(1, n + 2)))
+        nact1 = n if (nactive == -1 or tpt == 1) else nactive - 1
+        dt = rng.normal() * 10 ** rng.uniform(-3, 1)
+        m0 = 10 ** rng.uniform(-3, 3)
+        slot0 = [rng.normal() for _ in range(6)]
+        parts = [[m0 * 10 ** rng.uniform(-6, 0) if rng.chance(0.8) else 0.0] + [rng.normal() for _ in range(6)] for _ in range(n)]
+        wl.append("wjump %d %s %d %d %s %s %s %s" % (i, coord, tpt, nactive, d2h(dt), d2h(m0), " ".join(d2h(v) for v in slot0),
+                                                     " ".join(d2h(v) for pp in parts for v in pp)))
+        for comp in range(3):
+            wm.append("wjump %s %d %s %s %s %s %s" % (coord, nact1, d2h(dt), d2h(m0), d2h(slot0[comp]), d2h(slot0[3 + comp]),
+                                                      " ".join("%s %s %s" % (d2h(pp[0]), d2h(pp[4 + comp]), d2h(pp[1 + comp])) for pp in parts)))
+        wmeta2.append((coord, tpt, nactive, n, slot0, parts))
+    wmo = run_driver(exe, wm)
+    wro2 = real.run(wl)
+    wdis, wfirst = 0, None
+    wh = {}
+    for i in range(nw):
+        coord, tpt, nactive, n, slot0, parts = wmeta2[i]
+        a = wro2.get(str(i), "").split()
+        c.count(("wjump", coord, tpt, nactive, n))
+        wh[coord] = wh.get(coord, 0) + 1
+        good = len(a) == 6 * (n + 1)
+        if good:
+            for comp in range(3):
+                mres = wmo[3 * i + comp].split()
+                good = good and mres == [a[6 * q + comp] for q in range(n + 1)]
+            vel0 = [d2h(v) for v in slot0[3:]]
+            good = good and a[3:6] == vel0 and all(a[6 * (q + 1) + 3 + comp] == d2h(parts[q][4 + comp]) for q in range(n) for comp in range(3))
+        if not good:
+            wdis += 1
+            if wfirst is None:
+                wfirst = {"coordinates": coord, "testparticle_type": tpt, "N_active": nactive, "n": n, "model": wmo[3 * i:3 * i + 3], "impl": " ".join(a)}
+    c.cov["whfast_jump_com_step_calls_compared_bitwise"] = {"total": nw, "per_coordinates": wh, "disagreements": wdis}
+    if wdis:
+        c.corr_break("%d of %d reb_whfast_jump_step + reb_whfast_com_step calls differ from the model (momentum sum over the active particles; WHDS own-term; slot 0 drift)" % (wdis, nw), wfirst)
 
     # ---------------------------------------------------------------- tangent map tie
     nv = 5000 if c.thorough else 250
